@@ -926,6 +926,27 @@ impl<'c, 's, 'ast> Visit<'ast> for FnVisitor<'c, 's> {
         }
         // R6: RECV.contains(&X) on slices / Vecs
         if name == "contains" && m.args.len() == 1 {
+            // (LO..HI).contains(&X) / (LO..=HI).contains(&X): the comparison core defines it as (no loop)
+            let mut recv: &syn::Expr = &m.receiver;
+            while let syn::Expr::Paren(p) = recv {
+                recv = &p.expr;
+            }
+            if let (syn::Expr::Range(rg), syn::Expr::Reference(_)) = (recv, &m.args[0]) {
+                if let (Some(lo), Some(hi)) = (&rg.start, &rg.end) {
+                    let (rs, _) = br(m.receiver.span());
+                    let (ls, le) = br(lo.span());
+                    let (hs, he) = br(hi.span());
+                    let (as_, ae) = br(m.args[0].span());
+                    let (_, me) = br(m.span());
+                    let op = if let syn::RangeLimits::Closed(_) = rg.limits { "<=" } else { "<" };
+                    self.cx.edit(rs, ls, "{ let vx_lo = ", "R6");
+                    self.cx.edit(le, hs, "; let vx_hi = ", "R6");
+                    self.cx.edit(he, as_, "; let vx_x = ", "R6");
+                    self.cx.edit(ae, me, format!("; vx_lo <= *vx_x && *vx_x {} vx_hi }}", op), "R6");
+                    visit::visit_expr_method_call(self, m);
+                    return;
+                }
+            }
             if let syn::Expr::Reference(_) = &m.args[0] {
                 let n = self.r6n;
                 self.r6n += 1;
